@@ -141,12 +141,14 @@ partial def elabStmts (ps : PS) (inst : Nat) (stmts : List Stmt) (env : List (St
        | none => ({ e with err := true }, env))
     | "fbsrc" =>
       let init := if st.args.length ≥ 2 then parseInt (st.args.getD 1 "0") else none
-      let (e', idx) := addNode e inst { lbl := "#feedback_source", kind := .fbsrc init }
+      let nidx := (e.insts.getD inst { nodes := [] }).nodes.length
+      let (e', idx) := addNode e inst { lbl := s!"#feedback_source:{nidx}", kind := .fbsrc init }
       elabStmts ps inst rest ((key, ⟨inst, idx, .main⟩) :: env) e' ((num 0, idx) :: fbs)
     | "fbbind" =>
       (match (fbs.find? (·.1 == num 0)), a 1 with
        | some (_, sidx), some r =>
-         let (e', _) := addNode e inst { lbl := "#feedback_sink", kind := .fbsink sidx, ins := [r] }
+         let nidx := (e.insts.getD inst { nodes := [] }).nodes.length
+         let (e', _) := addNode e inst { lbl := s!"#feedback_sink:{nidx}", kind := .fbsink sidx, ins := [r] }
          elabStmts ps inst rest env e' fbs
        | _, _ => ({ e with err := true }, env))
     | "nested" | "tryx" =>
